@@ -189,15 +189,16 @@ def tup(*ts):
     return _merge("std::tuple<%s>" % ", ".join(t.cpp for t in ts), "tuple<%s>" % ",".join(t.name for t in ts), list(ts)).shaped("tup", list(ts))
 
 
-def opt(t):
-    amb = F_AMBIGUOUS if t.nil_lead else 0
+def opt(t, rep=False):
+    # rep: the corpus only generates representable values for this nesting (engaged outer => engaged inner), so it is compared like any other type
+    amb = F_AMBIGUOUS if (t.nil_lead and not rep) else 0
     r = _merge("nop::Optional<%s>" % t.cpp, "Optional<%s>" % t.name, [t], amb).shaped("opt", [t])
     r.nil_lead, r.err_lead = True, t.err_lead
     return r
 
 
-def res(e, t):
-    amb = F_AMBIGUOUS if t.err_lead else 0
+def res(e, t, rep=False):
+    amb = F_AMBIGUOUS if (t.err_lead and not rep) else 0
     r = _merge("nop::Result<%s, %s>" % (e.cpp, t.cpp), "Result<%s,%s>" % (e.name, t.name), [e, t], amb).shaped("res", [e, t])
     r.nil_lead, r.err_lead = t.nil_lead, True
     return r
@@ -432,6 +433,8 @@ def curated():
     # integral arrays whose payload is large in bytes (multi-byte elements, > 256 bytes) and a C array member of that kind
     A(arr(P("u32"), 200)); A(arr(P("i16"), 300)); A(struct([Member(P("u64"), 40), Member(P("u8"))], "SBigCArr"))
     A(opt(opt(P("i32")))); A(res(enum("u8"), res(enum("i32"), P("u8"))))   # format-ambiguous nestings (known limits of the format)
+    # the same nestings with heap-owning elements, restricted to the values the format can represent (engaged outer => engaged inner)
+    A(opt(opt(P("string")), rep=True)); A(res(enum("u8"), res(enum("i32"), vec(P("string"))), rep=True)); A(vec(opt(opt(P("string")), rep=True)))
     A(handle()); A(vec(handle())); A(opt(handle())); A(handle("A"))
     # structures
     s1 = struct([Member(P("i32")), Member(P("string")), Member(vec(P("u16"))), Member(opt(P("double")))], "S1"); A(s1)
@@ -459,6 +462,8 @@ def curated():
     # tables
     t1 = table([(s1, 0, True), (vec(P("string")), 3, True), (P("int"), 7, False), (mp(P("u8"), enum("i32")), 300, True)], "T1", ("ns", "verif.T1")); A(t1)
     t1r = table([(s1, 0, True), (P("int"), 7, False), (mp(P("u8"), enum("i32")), 300, False), (P("string"), 9, True)], "T1_R", ("ns", "verif.T1")); A(t1r)   # reader-side version of T1: skips entries 3 and 300
+    A(table([(P("string"), 1, True), (P("u16"), 2, True), (vec(P("u32")), 3, True), (s1, 4, True)], "T3", ("ns", "verif.T3")))
+    A(table([(P("string"), 1, True), (P("u16"), 2, True)], "T3_R", ("ns", "verif.T3")))          # older revision: no deleted entries, entries 3 and 4 unknown
     A(table([(P("u8"), 1, True)], "TOne", ("plain",)))
     A(table([(P("u64"), 1, False), (P("string"), 2, False)], "TAllDeleted", ("hash", 1 << 40)))
     t2 = table([(P("string"), 1, True), (t1, 2, True), (opt(P("i32")), 0xffffffffff, True)], "TNest", ("hash", 127)); A(t2)
